@@ -326,6 +326,11 @@ class Report:
         reps = replay_cases(self.prop, uniq)
         self.replays += len(reps)
         for c, r in zip(uniq, reps):
+            if not r.get('reproduced') and (r.get('fields') or {}).get('unreachable'):
+                # pre-state of an inductive-step counterexample that no history reaches
+                self.extra['unreachable_counterexamples_dropped'] = \
+                    self.extra.get('unreachable_counterexamples_dropped', 0) + 1
+                continue
             if not r.get('reproduced'):
                 self.harness_errors.append('counterexample did not reproduce on the unlifted package: %s -> %s'
                                            % (json.dumps(c)[:400], r.get('detail')))
